@@ -582,6 +582,9 @@ func (e *FuncEnc) encodeConvert(x *ssa.Convert) {
 		// []byte(s): fresh slice with the same length
 		f := e.D.UF("bytes_of_str", []string{"Str"}, "Slice")
 		e.D.Axiom("bytes_of_str", "(forall ((s Str)) (! (and (= (sl_len (bytes_of_str s)) (slen s)) (= (sl_off (bytes_of_str s)) 0) (>= (sl_cap (bytes_of_str s)) (slen s)) (> (sl_base (bytes_of_str s)) 0)) :pattern ((bytes_of_str s))))")
+		if e.D.seen["proj-prelude"] {
+			e.D.Axiom("slice_text", "(forall ((s Str)) (! (= (slice_text (bytes_of_str s)) s) :pattern ((bytes_of_str s))))")
+		}
 		e.setVal(x, "Slice", sx(f, v))
 		if _, used := e.heapSorts[fsKey]; used || (e.W != nil && len(e.W.FSWriters) > 0) {
 			e.assume(e.curReach, eq(e.bcontent(e.val[x], e.cur), sx("strbytes", v)))
